@@ -17,6 +17,10 @@
 //	                                 a & b = GV.Gen.Verifier.i64and a b (two's complement and), a / b = GV.Gen.Verifier.i64quo a b (truncated
 //	                                 quotient, wraps; b must be a non-zero literal), ==, != exact;  int64(x) of an int = x;
 //	                                 big.NewInt(int64(x)) = x
+//	Go `uint64` at run time (plookup's proof.size): an exact Int assumed in [0, 2^64); -, &, / are u64sub (wraps), u64and, u64quo; int64(x) = wrap64 x
+//
+//	ecc/<curve>/fr/plookup/vector.go (deriveRandomness: table.go)   VerifyLookupVector(vk, proof)   ->  Gen/Verifier/Plookup_<curve>.lean
+//	with 6 + 4 claimed values; the two kzg.BatchVerifySinglePoint calls (6 and 4 digests) re-translated from kzg.go into the same file
 package main
 
 import (
@@ -39,6 +43,14 @@ func runGroupPerm(guard func(string, func())) {
 			p.translate("Verify", []int{4})
 			p.emit("permutation_"+lc, "Permutation_"+lc+".lean", "")
 		})
+		guard("plookup "+c, func() {
+			p := loadGroupPkg("plookup_"+lc, "ecc/"+c+"/fr/plookup", "vector.go,table.go")
+			p.classes = permClasses
+			p.permMode = true
+			p.lensNames = map[string]string{"VerifyLookupVector" + lensKey([]int{6, 4}): "VerifyLookupVector"}
+			p.translate("VerifyLookupVector", []int{6, 4})
+			p.emit("plookup_"+lc, "Plookup_"+lc+".lean", "")
+		})
 	}
 }
 
@@ -50,10 +62,19 @@ func (x *gtr) permIntOp(op token.Token, a, b *gv) *gv {
 	if fn == "" {
 		return nil
 	}
+	t := &gtype{k: gInt}
+	if a.t.name == "uint64" || b.t.name == "uint64" {
+		// uint64 operands (an untyped constant takes the type of the other operand)
+		if (a.t.name != "uint64" && !a.static) || (b.t.name != "uint64" && !b.static) {
+			reject("%s: mixed int / uint64 operands", x.fname)
+		}
+		fn = "u" + fn[1:]
+		t = &gtype{k: gInt, name: "uint64"}
+	}
 	if op == token.QUO && !(b.static && b.n != 0) {
 		reject("%s: run-time integer division by a non-literal or by zero", x.fname)
 	}
-	return &gv{t: &gtype{k: gInt}, term: fmt.Sprintf("(GV.Gen.Verifier.%s %s %s)", fn, intTerm(a), intTerm(b))}
+	return &gv{t: t, term: fmt.Sprintf("(GV.Gen.Verifier.%s %s %s)", fn, intTerm(a), intTerm(b))}
 }
 
 func (x *gtr) permCall(s *gscope, c *ast.CallExpr) ([]*gv, bool) {
@@ -73,6 +94,12 @@ func (x *gtr) permCall(s *gscope, c *ast.CallExpr) ([]*gv, bool) {
 		v := x.eval(s, c.Args[0])
 		if v.t.k != gInt {
 			reject("%s: int64 of a non-int", x.fname)
+		}
+		if v.t.name == "uint64" {
+			if v.static {
+				reject("%s: int64 of a uint64 constant", x.fname)
+			}
+			return []*gv{{t: &gtype{k: gInt}, term: fmt.Sprintf("(GV.Gen.Verifier.wrap64 %s)", v.term)}}, true
 		}
 		return []*gv{v}, true
 	case "big.NewInt":
